@@ -33,9 +33,17 @@ Definition dec_world (s : sexp) : option world :=
       (* an eighth field: the npm resolver's answers (absent in worlds written before it was modelled) *)
       do npm' <- match rest with
                  | [] => Some None
-                 | [n] => as_option (as_list_of (as_pair as_atom as_atom)) n
-                 | _ => None
+                 | n :: _ => as_option (as_list_of (as_pair as_atom as_atom)) n
                  end;
+      do wasm' <- match rest with
+                  | _ :: w :: _ => as_atoms w
+                  | _ => Some []
+                  end;
+      do nodts' <- match rest with
+                   | [_; _; d] => as_atoms d
+                   | [] | [_] | [_; _] => Some []
+                   | _ => None
+                   end;
       do resps' <- as_list_of (as_pair as_atom dec_wresp) resps;
       do reloads' <- as_list_of (as_pair as_atom dec_wresp) reloads;
       do classes' <- as_list_of (as_pair as_atom dec_sclass) classes;
@@ -43,7 +51,7 @@ Definition dec_world (s : sexp) : option world :=
       do https' <- as_atoms https;
       do lock' <- as_option (as_list_of (as_pair as_atom as_atom)) lock;
       Some {| w_resp := resps'; w_resp_reload := reloads'; w_http := https'; w_lock := lock';
-              w_class := classes'; w_file := files'; w_max_redirects := N.to_nat maxr; w_npm := npm' |}
+              w_class := classes'; w_file := files'; w_max_redirects := N.to_nat maxr; w_wasm_ext := wasm'; w_wasm_nodts := nodts'; w_npm := npm' |}
   | _ => None
   end.
 
@@ -70,6 +78,7 @@ Definition enc_berr (e : berr) : sexp :=
   | BUnsupportedAttr s r k => L [A 6; A s; A r; A k]
   | BBadSpecifier s r => L [A 7; A s; enc_ref r]
   | BNpm s r k => L [A 8; A s; enc_ref r; A k]
+  | BSourcePhase s r => L [A 9; A s; A r]
   end.
 
 Definition enc_bslot (sl : bslot) : sexp :=
